@@ -482,8 +482,12 @@ def _r2_r5(ctx, rm, pkg):
     ctx.floor("R5", "signature requirements", nsig, 60)
     # RR07 accretion arms: electron arm has no mass dependence, the other arms have T^(1/2) A^(-1/2)
     vs = [v for v in rm.variants("RR07Grain", "rate_depletion") if v.kind == "text"]
+    from ..valueflow import guards_satisfiable
+    ELEC = ("attr", ("sub", ("attr", REAC, "reactants"), ("const", 0)), "is_electron")
     for v in vs:
-        el = any(c == ("attr", ("sub", ("attr", REAC, "reactants"), ("const", 0)), "is_electron") and pol for c, pol in v.conds)
+        if not guards_satisfiable(v.conds):
+            continue        # a combination of conditions no species satisfies (e.g. electron and not electron)
+        el = not guards_satisfiable(v.conds, [(ELEC, False)])      # the conditions of this arm force the electron
         names = {h: (name_hole(ir)[0] or "UNKNOWN") for h, ir in v.holes.items()}
         txt = re.sub(r"H\d+_", lambda m: names.get(m.group(0), m.group(0)), v.text)
         try:
